@@ -332,7 +332,7 @@ def run(model, rep, tier):
     rep.meta["explanation"] = (
         "Names are touched only through comparisons, a finite structure: the operator table, the single normaliser shared by compare/hash/canonical forms, "
         "the mirrored arms of fullcompare and the relativity guards are read from the AST and compared with RFC 4034 6.1. Totality/transitivity follow from these plus "
-        "properties of bytes comparison (trusted). RFC 4471 successor/predecessor arithmetic (incl. the known failure for a label of 63 'Z' octets) is NOT decided.")
+        "properties of bytes comparison (trusted). The RFC 4471 octet step is decided by constant propagation over the 256 octet values (R-06.5); the length handling of successor/predecessor is NOT decided.")
 
 
 def _blocks(fn):
